@@ -78,6 +78,14 @@ def revcomp(s):
     return ''.join(COMP.get(c, 'N') for c in reversed(s))
 
 
+def is_dyadic(v):
+    return math.isfinite(v) and abs(v) <= 64.0 and v * 1048576.0 == math.floor(v * 1048576.0)
+
+
+def is_pow2(v):
+    return v > 0 and math.frexp(v)[0] == 0.5 and 2.0 ** -10 <= v <= 64.0
+
+
 class Ref:
     """reference for one (motif, strand)"""
 
@@ -99,9 +107,25 @@ class Ref:
                 self.b_lo = b
                 break
         self.T_lo, self.T_hi = self.b_lo * bin_size, self.b_hi * bin_size
+        # exact mode: entries of the log-odds matrix that are small dyadic rationals (multiples of 2^-20, |v| <= 64)
+        # add up in float64 without any rounding, in every summation order.  With a power-of-two bin size the score
+        # threshold b* * bin and the quotient score / bin are exact too, so NO float guard is needed for windows made
+        # of such entries only: a window whose score EQUALS the threshold must not be reported ("exceeds"), and its
+        # score bin is unambiguous.
+        self.dy = [[is_dyadic(float(self.lp[k, j])) for j in range(self.w)] for k in range(4)]
+        self.exact_ok = is_pow2(bin_size) and any(any(r) for r in self.dy)
 
-    def status(self, score):
-        tol = 1e-11 * max(1.0, abs(score), abs(self.T_lo))
+    def window_exact(self, s, start):
+        if not self.exact_ok:
+            return False
+        for j in range(self.w):
+            ch = s[start + j]
+            if ch in ALPHA and not self.dy[ALPHA.index(ch)][j]:
+                return False
+        return True
+
+    def status(self, score, exact=False):
+        tol = 0.0 if exact else 1e-11 * max(1.0, abs(score), abs(self.T_lo))
         if score > self.T_lo + tol:
             return 'must'
         if score <= self.T_hi - tol:
@@ -114,7 +138,10 @@ class Ref:
         e = round(q) * self.bin
         return abs(score - e) <= 2.5e-7 * max(abs(e), 1e-3)
 
-    def p_candidates(self, score):
+    def p_candidates(self, score, exact=False):
+        if exact:
+            q = score / self.bin          # exact (power-of-two bin); negative scores: floor or truncation, see above
+            return [self.tail.p(b) for b in sorted({math.floor(q)} | ({math.ceil(q)} if q < 0 else set()))]
         return [self.tail.p(b) for b in sorted(score_bins(score, self.bin))]
 
 
@@ -136,10 +163,14 @@ def table_ok(ref, cache, key):
 
 # ----------------------------------------------------------------------------- running the real thing
 
-def _write_fasta(path, names, seqs, wrap):
+def _write_fasta(path, names, seqs, wrap, desc=False, lower=0):
+    """lower = k > 0: every k-th character is written in lower case (soft-masking); desc: a description follows the
+    record name on the header line (the name is the first word)"""
     with open(path, 'w') as f:
         for n, s in zip(names, seqs):
-            f.write('>%s\n' % n)
+            f.write('>%s%s\n' % (n, ' len=%d some description' % len(s) if desc else ''))
+            if lower:
+                s = ''.join(c.lower() if i % lower == 0 else c for i, c in enumerate(s))
             if wrap:
                 for i in range(0, len(s), wrap):
                     f.write(s[i:i + wrap] + '\n')
@@ -164,7 +195,62 @@ def _tmpdir():
 
 
 def names_of(case):
-    return ['m%d' % i for i in range(len(case['pwms']))]
+    return list(case.get('names') or ['m%d' % i for i in range(len(case['pwms']))])
+
+
+def snames_of(case, n):
+    sn = case.get('snames')
+    return list(sn) if sn and len(sn) == n else ['s%d' % i for i in range(n)]
+
+
+X_VARIANTS = ['numpy', 'int8', 'uint8', 'int64', 'f64', 'f16', 'permuted', 'numpy-int8-f', 'numpy-bool']
+P_VARIANTS = ['transposed', 'strided', 'grad']
+
+
+def build_x(seqs, xvar):
+    """the one-hot input in one of the accepted container / dtype / memory-layout variants (all the same sequences)"""
+    X = one_hot(seqs)                                   # torch float32, contiguous
+    if xvar in (None, 'f32'):
+        return X
+    if xvar == 'numpy':
+        return X.numpy()
+    if xvar == 'int8':
+        return X.to(torch.int8)
+    if xvar == 'uint8':
+        return X.to(torch.uint8)
+    if xvar == 'int64':
+        return X.to(torch.int64)
+    if xvar == 'f64':
+        return X.to(torch.float64)
+    if xvar == 'f16':
+        return X.to(torch.float16)
+    if xvar == 'permuted':                              # (N, L, 4) storage viewed as (N, 4, L): not contiguous
+        return X.permute(0, 2, 1).contiguous().permute(0, 2, 1)
+    if xvar == 'numpy-int8-f':
+        return numpy.asfortranarray(X.numpy().astype(numpy.int8))
+    if xvar == 'numpy-bool':
+        return X.numpy().astype(bool)
+    raise ValueError(xvar)
+
+
+def build_motifs(case, pvar):
+    out = {}
+    for n, p in zip(names_of(case), case['pwms']):
+        t = torch.tensor(p, dtype=torch.float64)
+        if pvar == 'transposed':                        # column-major storage
+            t = t.T.contiguous().T
+        elif pvar == 'strided':                         # every third column of a wider matrix
+            big = torch.full((4, 3 * t.shape[1]), 0.25, dtype=torch.float64)
+            big[:, 1::3] = t
+            t = big[:, 1::3]
+        elif pvar == 'grad':
+            t = t.clone().requires_grad_(True)
+        out[n] = t
+    return out
+
+
+# call-history cases: the SAME dict / tensor objects are passed to consecutive calls (updated in place)
+_SHARED = {'motifs': None}
 
 
 class RealError(Exception):
@@ -186,8 +272,8 @@ def _run_real(case, seqs=None, inp=None, dim=0, counts=False, threads=None, meme
     seqs = case['seqs'] if seqs is None else seqs
     inp = case['input'] if inp is None else inp
     names = names_of(case)
-    motifs = {n: torch.tensor(p, dtype=torch.float64) for n, p in zip(names, case['pwms'])}
-    snames = ['s%d' % i for i in range(len(seqs))]
+    motifs = _SHARED['motifs'] if _SHARED['motifs'] is not None else build_motifs(case, case.get('pvar'))
+    snames = snames_of(case, len(seqs))
     old = numba.get_num_threads()
     with _tmpdir() as d:
         try:
@@ -199,10 +285,10 @@ def _run_real(case, seqs=None, inp=None, dim=0, counts=False, threads=None, meme
                 motifs = mp
             if inp == 'fasta':
                 fp = os.path.join(d, 'x.fa')
-                _write_fasta(fp, snames, seqs, case.get('wrap'))
+                _write_fasta(fp, snames, seqs, case.get('wrap'), case.get('desc', False), case.get('lower', 0))
                 X = fp
             else:
-                X = one_hot(seqs)
+                X = build_x(seqs, case.get('xvar'))
             out = F.fimo(motifs, X, bin_size=case['bin'], eps=case['eps'], threshold=case['threshold'],
                          reverse_complement=case['rc'], return_counts=counts, dim=dim)
         finally:
